@@ -259,6 +259,7 @@ class Exec:
         from . import models
         self.models = models.REGISTRY
         self.max_depth = 24
+        self.clock = {}
         self.cut_loops = []         # (fn-name suffix, bb): loop heads closed by induction
         self.summarize = True
         self._no_summary = set()
@@ -454,6 +455,8 @@ class Exec:
             else:
                 val = (1 << w) - 1 if what == 'MAX' else 0
             return (bvv(val, w), ty)
+        if name.endswith('UNIX_EPOCH'):
+            return Agg('struct', ((bv64(0), 'i64'), (bvv(0, 32), 'u32')), 'SystemTime')
         if name.endswith('::USIZE') or name.endswith('::U64') or name.endswith('::U32') or name.endswith('::U8'):
             from .crypto import typenum
             v = typenum(name)
@@ -1561,10 +1564,15 @@ class Exec:
         if not rets:
             return None
         try:
-            return merge_values(rets)
+            merged = merge_values(rets)
         except _NoMerge:
             self._no_summary.add(callee.name)
             return None
+        # the caller continues only along one of the callee's returning paths (keeps assumptions made inside the callee)
+        cover = z3.simplify(z3.Or(*[c for c, _v in rets]))
+        if not z3.is_true(cover):
+            p.pcs.append(cover)
+        return merged
 
 
 class _NoMerge(Exception):
